@@ -88,6 +88,40 @@ def mk_map_matrix(t, dims, dst, op, src):
                    [{'kind': 'equal', 'a': 'd', 'b': 'dref', 'cells': n, 'mode': mode}])
 
 
+def mk_map_view(t, dims, kind, op, src):
+    """slices and boolean masks of a TensorMap over a raw buffer: the buffer must end up as the plain loop over the selected cells leaves it"""
+    ct = CTYPE[t]; n = prod(dims)
+    tt = tensor_t(t, dims)
+    mt = 'TensorMap<%s%s>' % (ct, ''.join(',%d' % d for d in dims))
+    if len(dims) == 1:
+        N = dims[0]; f, l, st = 1, N - 1, 2
+        sel = list(range(f, l, st)); ext = [len(sel)]
+        view = {'seq': 'm(seq(%d,%d,%d))' % (f, l, st), 'fseq': 'm(fseq<%d,%d,%d>())' % (f, l, st)}.get(kind)
+    else:
+        M, N = dims; r0, r1, rs, c0, c1, cs = 0, M, 2, 1, N, 2
+        sel = [i * N + j for i in range(r0, r1, rs) for j in range(c0, c1, cs)]; ext = [len(range(r0, r1, rs)), len(range(c0, c1, cs))]
+        view = {'seq': 'm(seq(%d,%d,%d),seq(%d,%d,%d))' % (r0, r1, rs, c0, c1, cs), 'fseq': 'm(fseq<%d,%d,%d>(),fseq<%d,%d,%d>())' % (r0, r1, rs, c0, c1, cs)}.get(kind)
+    regions = [rreg('d', t, n, role='inout', init='sym'), rreg('dref', t, n, init='sym', ns='d'), rreg('s', t, 1, role='in', init='sym')]
+    cop = MAP_OPS[op]
+    mode = 'ALG' if (op == '/=' and src == 'scalar' and t in ('f32', 'f64')) else 'EXACT'
+    if kind == 'mask':
+        regions.append({'name': 'k', 'ety': 'bool', 'cells': n, 'kind': 'tensor', 'role': 'in'})
+        te = tensor_t(t, dims); regions.append(treg('b', t, dims))
+        rhs_w, rhs_r = ('s', 's') if src == 'scalar' else ('b', 'b[i]')
+        wit = 'extern "C" void @W@(%s* d, const %s& k, const %s& b, %s s){ %s m(d); m(k) %s %s; }' % (ct, tensor_t('bool', dims), te, ct, mt, op, rhs_w)
+        ref = 'extern "C" void @R@(%s* d, const bool* k, const %s* b, %s s){ for(int i=0;i<%d;i++) if(k[i]){ %s& x = d[i]; %s y = %s; %s; } }' % (ct, ct, ct, n, ct, ct, rhs_r, cop)
+        args = ['d', 'k', 'b', {'scalar': 's'}]; rargs = ['dref', 'k', 'b', {'scalar': 's'}]
+    else:
+        te = tensor_t(t, ext); regions.append(treg('b', t, ext))
+        regions.append({'name': 'idx', 'ety': 'i32', 'cells': len(sel), 'kind': 'raw', 'role': 'in', 'init': 'ints', 'ints': sel})
+        rhs_w, rhs_r = ('s', 's') if src == 'scalar' else ('b', 'b[q]')
+        wit = 'static_assert(sizeof(%s) > 0, "complete type");\nextern "C" void @W@(%s* d, const %s& b, %s s){ %s m(d); %s %s %s; }' % (tt, ct, te, ct, mt, view, op, rhs_w)
+        ref = 'extern "C" void @R@(%s* d, const %s* b, %s s, const int* idx){ for(int q=0;q<%d;q++){ %s& x = d[idx[q]]; %s y = %s; %s; } }' % (ct, ct, ct, len(sel), ct, ct, rhs_r, cop)
+        args = ['d', 'b', {'scalar': 's'}]; rargs = ['dref', 'b', {'scalar': 's'}, 'idx']
+    return Witness('mapview_%s_%s_%s_%s_%s' % (kind, OPN[op], src, t, 'x'.join(map(str, dims))), 'map.view.' + kind, {'type': t, 'dims': list(dims), 'kind': kind, 'op': op, 'src': src}, wit, ref, regions,
+                   [{'mod': 'wit', 'fn': '@W@', 'args': args}, {'mod': 'ref', 'fn': '@R@', 'args': rargs}], [{'kind': 'equal', 'a': 'd', 'b': 'dref', 'cells': n, 'mode': mode}])
+
+
 def mk_map_read(t, dims, kind):
     ct = CTYPE[t]; n = prod(dims)
     mt = 'TensorMap<%s%s>' % (ct, ''.join(',%d' % d for d in dims))
@@ -203,6 +237,12 @@ def witnesses(tier, seed):
                         continue      # TensorMap has no operator=(scalar) in any configuration (fill() is covered above)
                     k += 1
                     W.append(mk_map_matrix(T3[k % 3], list(dims), dst, op, src))
+    for dims in ([9], [17], [4, 7]):
+        for kind in ('seq', 'fseq', 'mask'):
+            for op in MAP_OPS:
+                for src in ('scalar', 'tensor'):
+                    k += 1
+                    W.append(mk_map_view(T3[k % 3], list(dims), kind, op, src))
     for (M, N) in [(2, 2), (3, 3), (4, 4), (5, 4), (3, 8), (8, 8), (9, 5)]:
         for t in ('f64', 'f32'):
             W.append(mk_map_read(t, [M, N], 'matmul'))
@@ -229,6 +269,6 @@ def check(tier, seed):
         return finish('C20', tier, seed, R, 'other',
                       rule='(i) an operation applied through TensorMap<T,...>(buf) over a raw buffer that is only alignof(T)-aligned must leave the buffer in exactly the state plain element-wise loops leave it in (writes through the map, maps as operands, reductions and matmul over maps); every alignment-requiring access to the buffer is a violation, which decides all 64 misalignments at once; (ii) reshape/flatten/squeeze: a fixed interleaving of writes through the returned map and through the source tensor must equal the same sequence on one flat array (the map aliases the source storage); (iii) tocolumnmajor places element (i0..ik) at the column-major offset, torowmajor is its inverse, both compositions are the identity copy map — all shapes with extents <= 3 (thorough 4) of ranks 1-4 plus larger shapes; (iv) constructors from a raw buffer (row- and column-major), std::array and nested initializer lists store the given values row-major (copy-flow).',
                       trusted=['clang-14 front end and -O2 code generation', 'LLVM IR semantics as modelled by irflow', 'x86 lane table', 'offset oracles in gen/c20.py'],
-                      floors=load_floors('C20', tier), assumptions=['random operation sequences are replaced by a fixed interleaving of five operations'])
+                      floors=load_floors('C20', tier), uniform_reject_ok=True, assumptions=['random operation sequences are replaced by a fixed interleaving of five operations', 'slices and masks of a TensorMap that the library rejects at compile time under every configuration (mask views of a map, compound assignment of a tensor to a dynamic slice of a map) are counted, not judged'])
     finally:
         R.cleanup()
